@@ -41,7 +41,7 @@ type Node struct {
 	Exprs []Expr    // map outputs; filter: Exprs[0] predicate; flatmap: Exprs[0] count; repartition: Exprs[0]
 	Comb  string    // reduce: sum max min
 	Prag  string    // "", mat, procs2, excl
-	A, B  int64     // readerfunc: rows per shard = (A + shard*B) mod 40 ; chunk pattern seed in N2
+	A, B  int64     // readerfunc: rows per shard = (A + shard*B) mod 150 ; chunk pattern seed in N2
 	N2    int
 	Fail  *Fail  // failure injection (C06)
 	Cache string // cache prefix label (C13)
